@@ -31,6 +31,9 @@ pub struct Profile {
     pub funds_games_16: u64,
     /// probability (x/16) that a direct swap also carries a coin of the pair's other native denom
     pub extra_ask_16: u64,
+    /// probability (x/16) that a direct swap or a provision also carries a STRAY coin: one of a denom that is
+    /// no asset of the pair (it changes no reserve, so quotes, prices and shares must be unaffected)
+    pub stray_coin_16: u64,
     pub max_pairs: usize,
     /// router worlds want a connected asset graph
     pub connected: bool,
@@ -40,13 +43,13 @@ pub struct Profile {
     pub special: Option<fn(&World, &mut Src, &Profile, &mut GenState, usize) -> Option<Step>>,
 }
 
-pub const MIXED: Profile = Profile { name: "mixed", w: [10, 6, 10, 8, 3, 1, 4, 2, 1, 1], adversarial_16: 2, extra_ask_16: 1, funds_games_16: 1, max_pairs: 3, connected: false, hostile: false, special: None };
-pub const SWAPPY: Profile = Profile { name: "swappy", w: [6, 2, 14, 12, 2, 0, 4, 0, 0, 1], adversarial_16: 3, extra_ask_16: 2, funds_games_16: 0, max_pairs: 3, connected: false, hostile: false, special: None };
-pub const SETTLE: Profile = Profile { name: "settlement", w: [6, 2, 12, 14, 2, 1, 2, 0, 0, 0], adversarial_16: 9, extra_ask_16: 1, funds_games_16: 5, max_pairs: 3, connected: false, hostile: false, special: None };
-pub const FUNDS: Profile = Profile { name: "funds", w: [12, 1, 14, 6, 1, 0, 0, 0, 0, 0], adversarial_16: 3, extra_ask_16: 1, funds_games_16: 11, max_pairs: 2, connected: false, hostile: false, special: None };
-pub const LIQUIDITY: Profile = Profile { name: "liquidity", w: [12, 12, 6, 5, 4, 2, 1, 2, 0, 1], adversarial_16: 1, extra_ask_16: 1, funds_games_16: 0, max_pairs: 2, connected: false, hostile: false, special: None };
-pub const HOSTILE: Profile = Profile { name: "hostile", w: [8, 3, 10, 8, 8, 2, 2, 0, 0, 1], adversarial_16: 0, extra_ask_16: 2, funds_games_16: 0, max_pairs: 2, connected: false, hostile: true, special: None };
-pub const ROUTES: Profile = Profile { name: "routes", w: [8, 2, 5, 4, 1, 0, 12, 0, 0, 0], adversarial_16: 0, extra_ask_16: 1, funds_games_16: 0, max_pairs: 5, connected: true, hostile: false, special: None };
+pub const MIXED: Profile = Profile { name: "mixed", w: [10, 6, 10, 8, 3, 1, 4, 2, 1, 1], adversarial_16: 2, extra_ask_16: 1, stray_coin_16: 1, funds_games_16: 1, max_pairs: 3, connected: false, hostile: false, special: None };
+pub const SWAPPY: Profile = Profile { name: "swappy", w: [6, 2, 14, 12, 2, 0, 4, 0, 0, 1], adversarial_16: 3, extra_ask_16: 2, stray_coin_16: 1, funds_games_16: 0, max_pairs: 3, connected: false, hostile: false, special: None };
+pub const SETTLE: Profile = Profile { name: "settlement", w: [6, 2, 12, 14, 2, 1, 2, 0, 0, 0], adversarial_16: 9, extra_ask_16: 1, stray_coin_16: 1, funds_games_16: 5, max_pairs: 3, connected: false, hostile: false, special: None };
+pub const FUNDS: Profile = Profile { name: "funds", w: [12, 1, 14, 6, 1, 0, 0, 0, 0, 0], adversarial_16: 3, extra_ask_16: 1, stray_coin_16: 0, funds_games_16: 11, max_pairs: 2, connected: false, hostile: false, special: None };
+pub const LIQUIDITY: Profile = Profile { name: "liquidity", w: [12, 12, 6, 5, 4, 2, 1, 2, 0, 1], adversarial_16: 1, extra_ask_16: 1, stray_coin_16: 1, funds_games_16: 0, max_pairs: 2, connected: false, hostile: false, special: None };
+pub const HOSTILE: Profile = Profile { name: "hostile", w: [8, 3, 10, 8, 8, 2, 2, 0, 0, 1], adversarial_16: 0, extra_ask_16: 2, stray_coin_16: 1, funds_games_16: 0, max_pairs: 2, connected: false, hostile: true, special: None };
+pub const ROUTES: Profile = Profile { name: "routes", w: [8, 2, 5, 4, 1, 0, 12, 0, 0, 0], adversarial_16: 0, extra_ask_16: 1, stray_coin_16: 0, funds_games_16: 0, max_pairs: 5, connected: true, hostile: false, special: None };
 
 const COMMISSIONS: [Option<u128>; 8] = [None, Some(0), Some(1), Some(30_000_000_000_000_000), Some(E18 / 2), Some(E18 - 1), Some(E18), Some(3_000_000_000_000_000)];
 
@@ -339,7 +342,8 @@ pub fn gen_provide(w: &World, s: &mut Src, prof: &Profile) -> Step {
         .iter()
         .filter_map(|a| if let AssetInfo::NativeToken { denom } = &a.info { Some((denom.clone(), a.amount.u128())) } else { None })
         .collect();
-    let funds = funds_for(w, s, prof, &named, p);
+    let mut funds = funds_for(w, s, prof, &named, p);
+    add_stray_coin(w, s, prof, p, actor.as_str(), &mut funds);
     let receiver = if s.chance(2, 5) { Some(who(w, s)) } else { None };
     Step {
         sender: actor.to_string(),
@@ -445,9 +449,43 @@ pub fn gen_swap_exec(w: &World, s: &mut Src, prof: &Profile) -> Step {
     } else {
         delivered.into_iter().filter(|(_, a)| *a > 0).map(|(d, a)| Coin { denom: d, amount: Uint128::new(a) }).collect()
     };
-    let to = if s.chance(2, 5) { Some(who(w, s)) } else { None };
+    let mut funds = funds;
+    add_stray_coin(w, s, prof, p, &actor, &mut funds);
+    let to = swap_receiver(w, s);
     let (belief_price, max_spread) = guard_params(s);
     Step { sender: actor, call: Call::Pair { pair: p, msg: PairExec::Swap { offer_asset: offer, belief_price, max_spread, to } }, funds }
+}
+
+/// the `to` of a direct or hook swap: absent, a user account, or (1 in 12) a string that is no valid address
+/// - too short, or the upper-case spelling of an account - which the pair must refuse, not silently replace
+fn swap_receiver(w: &World, s: &mut Src) -> Option<String> {
+    match s.weighted(&[7, 4, 1]) {
+        0 => None,
+        1 => Some(who(w, s)),
+        _ => Some(match s.below(3) {
+            0 => "ab".to_string(),
+            1 => w.actors[s.idx(w.actors.len())].to_string().to_uppercase(),
+            _ => String::new(),
+        }),
+    }
+}
+
+/// a coin of a denom that is no asset of the pair (the upper-case look-alike of a native denom, which every
+/// holder owns, or another native denom of the world)
+fn add_stray_coin(w: &World, s: &mut Src, prof: &Profile, p: usize, actor: &str, funds: &mut Vec<Coin>) {
+    if s.below(16) >= prof.stray_coin_16 {
+        return;
+    }
+    let in_pair = |d: &str| w.pairs[p].infos.iter().any(|a| matches!(a, AssetInfo::NativeToken { denom } if denom == d));
+    let mut cands: Vec<String> = w.natives.iter().filter(|d| !in_pair(d)).cloned().collect();
+    cands.extend(w.natives.iter().map(|d| d.to_uppercase()).filter(|u| !w.natives.contains(u)));
+    cands.retain(|d| !funds.iter().any(|c| c.denom == *d) && w.balance(&AssetInfo::NativeToken { denom: d.clone() }, actor) > 0);
+    if cands.is_empty() {
+        return;
+    }
+    let d = cands[s.idx(cands.len())].clone();
+    funds.push(Coin { denom: d, amount: Uint128::new(1 + s.bits_u128(40)) });
+    funds.sort_by(|a, b| a.denom.cmp(&b.denom));
 }
 
 fn guard_params(s: &mut Src) -> (Option<Decimal>, Option<Decimal>) {
@@ -495,7 +533,7 @@ pub fn gen_swap_hook(w: &World, s: &mut Src, prof: &Profile) -> Step {
             _ => offer.amount = Uint128::new(s.bits_u128(100)),
         }
     }
-    let to = if s.chance(2, 5) { Some(who(w, s)) } else { None };
+    let to = swap_receiver(w, s);
     let (belief_price, max_spread) = guard_params(s);
     let hook = PairHook::Swap { offer_asset: offer, belief_price, max_spread, to };
     Step {
@@ -919,9 +957,9 @@ pub fn special_slippage(w: &World, s: &mut Src, _prof: &Profile, gs: &mut GenSta
     None
 }
 
-pub const GUARDED: Profile = Profile { name: "guarded", w: [5, 2, 16, 14, 2, 0, 3, 0, 0, 1], adversarial_16: 0, extra_ask_16: 0, funds_games_16: 0, max_pairs: 3, connected: false, hostile: false, special: Some(special_guarded) };
-pub const SLIPPAGE: Profile = Profile { name: "slippage", w: [16, 3, 10, 8, 3, 0, 2, 0, 0, 1], adversarial_16: 0, extra_ask_16: 1, funds_games_16: 0, max_pairs: 2, connected: false, hostile: false, special: Some(special_slippage) };
-pub const QUOTES: Profile = Profile { name: "quotes", w: [6, 3, 14, 12, 3, 0, 4, 0, 0, 1], adversarial_16: 0, extra_ask_16: 0, funds_games_16: 0, max_pairs: 3, connected: false, hostile: false, special: None };
+pub const GUARDED: Profile = Profile { name: "guarded", w: [5, 2, 16, 14, 2, 0, 3, 0, 0, 1], adversarial_16: 0, extra_ask_16: 0, stray_coin_16: 1, funds_games_16: 0, max_pairs: 3, connected: false, hostile: false, special: Some(special_guarded) };
+pub const SLIPPAGE: Profile = Profile { name: "slippage", w: [16, 3, 10, 8, 3, 0, 2, 0, 0, 1], adversarial_16: 0, extra_ask_16: 1, stray_coin_16: 1, funds_games_16: 0, max_pairs: 2, connected: false, hostile: false, special: Some(special_slippage) };
+pub const QUOTES: Profile = Profile { name: "quotes", w: [6, 3, 14, 12, 3, 0, 4, 0, 0, 1], adversarial_16: 0, extra_ask_16: 0, stray_coin_16: 2, funds_games_16: 0, max_pairs: 3, connected: false, hostile: false, special: None };
 
 // ------------------------------------------------------------------------------------------------
 // router-centred generation (C11, C13)
@@ -1067,4 +1105,4 @@ pub fn special_routes(w: &World, s: &mut Src, prof: &Profile, gs: &mut GenState,
     Some(st)
 }
 
-pub const ROUTER: Profile = Profile { name: "router", w: [7, 2, 5, 4, 2, 0, 14, 0, 0, 0], adversarial_16: 0, extra_ask_16: 2, funds_games_16: 0, max_pairs: 5, connected: true, hostile: false, special: Some(special_routes) };
+pub const ROUTER: Profile = Profile { name: "router", w: [7, 2, 5, 4, 2, 0, 14, 0, 0, 0], adversarial_16: 0, extra_ask_16: 2, stray_coin_16: 0, funds_games_16: 0, max_pairs: 5, connected: true, hostile: false, special: Some(special_routes) };
